@@ -27,7 +27,15 @@ func (u *Unit) ghostArr(st *State, name string, elem Sort) Term {
 }
 
 func (u *Unit) ghostGet(st *State, name string, elem Sort, idx Term) Term {
-	return Select(u.ghostArr(st, name, elem), idx, elem, u.distinctAddr)
+	v := Select(u.ghostArr(st, name, elem), idx, elem, u.distinctAddr)
+	// the zero value of a sync.Mutex / WaitGroup inside an object allocated on this
+	// path: not held, counter 0
+	if (name == "held" || name == "wg") && v.Op == "select" && v.Args[0].Op == "" {
+		if root := addrRoot(idx); u.isAllocAtom(root) && st.Fresh[root.String()] {
+			return IntLit(0)
+		}
+	}
+	return v
 }
 
 func (u *Unit) ghostSet(st *State, name string, elem Sort, idx, v Term) {
